@@ -104,6 +104,14 @@ CHECKS["C06"] = (
     "DESIGN.md section 4, C06",
 )
 
+CHECKS["C05"] = (
+    "E1-explicit-state",
+    "explicit-state BFS over operation histories of generated spec classes, every transition compared with an executable model of the documentation plus model-free differentials",
+    "For every class of the family a BFS over histories on the documented alphabet (with_/update_/transform_/reset_<attr> in every documented call form, assignment, deletion, update for singles and ordered pairs, transform, reset; _inplace x _if; MISSING / UNCHANGED; conforming values; pure transforms) is run on the real class; after every transition the state of the result equals the reference model applied to the real pre-state (preparer -> dict-as-keywords -> container normalisation with item preparer and key promotion -> type check), identity rules hold (copy returns a new object, in-place returns the receiver, no-ops return the receiver), and the model-free differentials agree (copy vs in-place on a clone, obj.a = v vs with_a(v, _inplace=True), update(a,b) vs chained with_, with_a(**kw) vs with_a(Nested(**kw)), with_a(MISSING) vs with_a()).",
+    "Trusts refspec in props/c05.py (~200 lines); undocumented call forms are skipped (counted as model_skips); bounded depth and pools.",
+    "DESIGN.md section 4, C05",
+)
+
 ENGINES = [
     {"name": "E1-explicit-state", "path": "mc/common.py, props/*.py (explore)", "serves_properties": [],
      "kind_free_text": "breadth-first explicit-state search over the real transition function; a state is the shortest operation history that reaches it, rebuilt by replay; canonical-form deduplication; lock-step reference model"},
